@@ -49,7 +49,21 @@ pub fn gen_graph(t: &mut Tape) -> Prog {
     // placement
     let tmod: Vec<usize> = (0..nt).map(|_| t.below(nm as u64) as usize).collect();
     let emod: Vec<usize> = (0..ne).map(|_| t.below(nm as u64) as usize).collect();
-    let tname = |i: usize| format!("N{i}");
+    // one program in three: some types of different modules share a short name, so that which definition a
+    // bare name denotes (and with it the whole dependency graph) follows from the scoping rules
+    let mut names: Vec<String> = (0..nt).map(|i| format!("N{i}")).collect();
+    if t.chance(1, 3) {
+        for i in 1..nt {
+            if t.chance(1, 3) {
+                let j = t.below(i as u64) as usize;
+                let cand = names[j].clone();
+                if tmod[i] != tmod[j] && !(0..nt).any(|k| k != i && tmod[k] == tmod[i] && names[k] == cand) {
+                    names[i] = cand;
+                }
+            }
+        }
+    }
+    let tname = |i: usize| names[i].clone();
     let ename = |i: usize| format!("En{i}");
     let mut missing_counter = 0;
     // imports are added as references are made
@@ -590,7 +604,7 @@ impl Prop for Graph {
         "C10/graph".into()
     }
     fn rule(&self) -> String {
-        "dependency graphs: 2-12 packed types (a quarter of them with a vftable block) and 0-2 enums in 1-4 modules; fields by value / in arrays / as #[base] / behind pointers, targets forward, backward, self, enums, undefined names; impl signatures and extern values over the same names; items shuffled inside modules. Oracle: build Ok iff the reference model binds every name and finds no by-value cycle; on Ok every declared type, enum, field, parameter, return type and extern value appears in the output with the expected fully qualified type (syn); on Err caused by fields only, the message names every stuck type path (whole token) and, inside its `failed on types: [...]` list, no resolvable one. Non-trivial: by-value chain >= 3 over >= 4 types, or any cycle, or any undefined name".into()
+        "dependency graphs: 2-12 packed types (a quarter of them with a vftable block; in a third of the programs some share a short name across modules, so that the scoping rules decide the graph) and 0-2 enums in 1-4 modules; fields by value / in arrays / as #[base] / behind pointers, targets forward, backward, self, enums, undefined names; impl signatures and extern values over the same names; items shuffled inside modules. Oracle: build Ok iff the reference model binds every name and finds no by-value cycle; on Ok every declared type, enum, field, parameter, return type and extern value appears in the output with the expected fully qualified type (syn); on Err caused by fields only, the message names every stuck type path (whole token) and, inside its `failed on types: [...]` list, no resolvable one. Non-trivial: by-value chain >= 3 over >= 4 types, or any cycle, or any undefined name".into()
     }
     fn gen(&self, t: &mut Tape) -> Case {
         let w = if t.chance(1, 2) { 8 } else { 4 };
